@@ -65,6 +65,14 @@ inline std::vector<KernelGroup> kernel_groups(bool thorough) {
   for (uint64_t m = 1; m <= (thorough ? 4096u : 256u); m *= 2) { g.push_back({K_FFTVEC, m}); g.push_back({K_CONV, m}); }
   for (uint64_t m = 4; m <= (thorough ? 1024u : 64u); m *= 2) g.push_back({K_REIM4, m});
   for (uint64_t nn = 1; nn <= (thorough ? 1024u : 64u); nn *= 2) g.push_back({K_COEFF, nn});
+  // sparse layer of large sizes (a path chosen by a size threshold - streaming stores, blocking, a wider unroll - is still met)
+  for (uint64_t nn : {4096, 65536}) { g.push_back({K_Q120_CONV, nn}); g.push_back({K_COEFF, nn}); }
+  for (uint64_t m : (thorough ? std::vector<uint64_t>{32768} : std::vector<uint64_t>{4096, 32768})) { g.push_back({K_FFTVEC, m}); g.push_back({K_CONV, m}); }
+  for (uint64_t m : (thorough ? std::vector<uint64_t>{4096, 32768} : std::vector<uint64_t>{1024, 32768})) g.push_back({K_REIM4, m});
+  if (!thorough) { g.push_back({K_FFT, 32768}); g.push_back({K_Q120_NTT, 65536}); }
+  // large sizes first so that the load balances (the product groups keep their place: their size is ell)
+  std::stable_sort(g.begin(), g.end(), [](const KernelGroup& a, const KernelGroup& b) {
+    uint64_t ka = a.fam == K_Q120_PROD ? ~0ull : a.size, kb = b.fam == K_Q120_PROD ? ~0ull : b.size; return ka > kb; });
   return g;
 }
 
